@@ -684,11 +684,13 @@ Json::Value genDropinRt() {
           "{\"rulesets\":[{\"name\":\"b0\",\"detectors\":[[\"g\",{\"name\":\"vp_detector\",\"args\":{\"id\":\"@\"}},{\"name\":\"pressure_above\",\"args\":{\"cgroup\":\"x\",\"resource\":\"memory\",\"threshold\":\"80\",\"duration\":\"5\",\"nosuch\":\"1\"}}]]}]}",
           "{\"rulesets\":[{\"name\":\"b0\",\"detectors\":[[\"g\",{\"name\":\"vp_detector\",\"args\":{\"id\":\"@\"}},{\"name\":\"pressure_above\",\"args\":{\"cgroup\":\"x\",\"resource\":\"memory\",\"threshold\":\"80\"}}]]}]}",
           "{\"rulesets\":[{\"name\":\"b0\",\"detectors\":[[\"g\",{\"name\":\"no_such_plugin\",\"args\":{\"id\":\"@\"}}]]}]}",
+          // several rulesets, one of them naming a base that does not exist: refused as a whole
+          "{\"rulesets\":[{\"name\":\"b0\",\"detectors\":[[\"g\",{\"name\":\"vp_detector\",\"args\":{\"id\":\"@\"}}]]},{\"name\":\"no_such_base\",\"detectors\":[[\"g\",{\"name\":\"vp_detector\",\"args\":{\"id\":\"a_@\"}}]]}]}",
+          "{\"rulesets\":[{\"name\":\"no_such_base\",\"detectors\":[[\"g\",{\"name\":\"vp_detector\",\"args\":{\"id\":\"a_@\"}}]]},{\"name\":\"b0\",\"detectors\":[[\"g\",{\"name\":\"vp_detector\",\"args\":{\"id\":\"@\"}}]]}]}",
           "{\"rulesets\":[{\"name\":\"b0\",\"detectors\":[[\"g\",{\"name\":\"vp_detector\",\"args\":{\"id\":\"@\"}}]]",
       };
       std::string t = oneOf(shapes);
-      auto pos = t.find('@');
-      if (pos != std::string::npos) t.replace(pos, 1, marker);
+      for (auto pos = t.find('@'); pos != std::string::npos; pos = t.find('@')) t.replace(pos, 1, marker);
       f["expect"] = "reject";
       f["text"] = t;
     }
